@@ -103,12 +103,28 @@ def _short(x):
     return "[%s, %s, ... %s] (%d)" % (x[0], x[1], x[-1], len(x))
 
 
-def sorted_reps(reps):
+def sorted_reps(reps, call=None):
+    """order in which the reader sees the replicas: by replica number, or the caller's explicit file order
+    (positional arguments such as r_start / r_stop / names refer to this order)."""
+    if call is not None and "files" in call and all(isinstance(f, str) for f in call["files"]):
+        byfile = {rp["file"]: i for i, rp in enumerate(reps) if "file" in rp}
+        if all(f in byfile for f in call["files"]):
+            return [byfile[f] for f in call["files"]]
     return sorted(range(len(reps)), key=lambda i: reps[i]["k"])
 
 
+
+def _bin_rep_names(p, call):
+    """image index -> replica name, for the one-file-per-replica binary kinds"""
+    order = sorted_reps(p["reps"], call)
+    out = {}
+    for pos, i in enumerate(order):
+        out[i] = call["names"][pos] if "names" in call else "%s|r%d" % (p["ens"], p["reps"][i]["k"])
+    return out
+
 # =====================================================================================
 class Rwms:
+    rep_names = staticmethod(_bin_rep_names)
     name = "rwms"
 
     def gen(self, rng, small=False):
@@ -149,6 +165,9 @@ class Rwms:
             c["names"] = ["%s|r%d" % ("Yens", p["reps"][i]["k"]) for i in order]
         if rng.random() < 0.25:
             c["files"] = [p["reps"][i]["file"] for i in order]
+            if "names" not in c and rng.random() < 0.5:
+                rng.shuffle(c["files"])      # caller-chosen order of explicitly given files (names still come from the file names)
+                c["sel"] = c.get("sel", "none") + "+files_unsorted"
         return c
 
     def images(self, p):
@@ -164,7 +183,7 @@ class Rwms:
         return {}
 
     def expect(self, p, models, nrecs, call):
-        order = sorted_reps(p["reps"])
+        order = sorted_reps(p["reps"], call)
         names, cfgs, vals = [], [], [[] for _ in range(p["nrw"])]
         for pos, i in enumerate(order):
             rp = p["reps"][i]
@@ -208,6 +227,7 @@ class Rwms:
 
 # =====================================================================================
 class Ms:
+    rep_names = staticmethod(_bin_rep_names)
     """openQCD .ms.dat: energy density dictionary, t0, w0, topological charge."""
     name = "ms"
 
@@ -287,6 +307,9 @@ class Ms:
             c["names"] = ["%s|r%d" % ("Yens", p["reps"][i]["k"]) for i in order]
         if rng.random() < 0.25:
             c["files"] = [p["reps"][i]["file"] for i in order]
+            if "names" not in c and rng.random() < 0.5:
+                rng.shuffle(c["files"])      # caller-chosen order of explicitly given files (names still come from the file names)
+                c["sel"] = c.get("sel", "none") + "+files_unsorted"
         return c
 
     def images(self, p):
@@ -301,7 +324,7 @@ class Ms:
 
     def _base(self, p, models, nrecs, call):
         """-> names, cfgs, per-replica selected records  or None"""
-        order = sorted_reps(p["reps"])
+        order = sorted_reps(p["reps"], call)
         what = p["what"]
         names, cfgs, sel = [], [], []
         steps = None
@@ -410,6 +433,7 @@ class Ms:
 
 # =====================================================================================
 class Gfms:
+    rep_names = staticmethod(_bin_rep_names)
     """sfqcd .gfms.dat: topological charge (Wilson/Zeuthen flow) and gradient-flow coupling."""
     name = "gfms"
 
@@ -487,7 +511,7 @@ class Gfms:
     NORM = {4: 0.012341170468270, 6: 0.010162691462430, 8: 0.009031614807931}
 
     def expect(self, p, models, nrecs, call):
-        order = sorted_reps(p["reps"])
+        order = sorted_reps(p["reps"], call)
         names, cfgs, vals = [], [], []
         tmax = p["tmax"]
         for pos, i in enumerate(order):
@@ -571,6 +595,12 @@ class Ms5:
         p["calls"] = [self.gen_call(rng, p) for _ in range(rng.randint(1, 3))]
         return p
 
+    def rep_names(self, p, call):
+        out = {}
+        for pos, i in enumerate(self._order(p)):
+            out[i] = sorted(call["names"])[pos] if "names" in call else "%s|r%d" % (p["ens"], p["reps"][i]["k"])
+        return out
+
     def _order(self, p):
         # the reader sorts file names alphabetically
         return sorted(range(len(p["reps"])), key=lambda i: p["reps"][i]["file"])
@@ -598,6 +628,9 @@ class Ms5:
             c["names"] = ["%s|r%d" % ("Yens", p["reps"][i]["k"]) for i in order]
         if rng.random() < 0.25:
             c["files"] = [p["reps"][i]["file"] for i in order]
+            if "names" not in c and rng.random() < 0.5:
+                rng.shuffle(c["files"])      # caller-chosen order of explicitly given files (names still come from the file names)
+                c["sel"] = c.get("sel", "none") + "+files_unsorted"
         return c
 
     def images(self, p):
